@@ -19,6 +19,7 @@ ASSUMPTIONS = ["only direct comparisons inside build are recognised as validatio
                "the heartbeat subtraction proofs assume the build invariants for the topic's parameter set; for topics configured only "
                "through set_topic_config that assumption is the recorded known finding"]
 G = "libp2p_gossipsub"
+CONFIGS = [{"name": "gossipsub-features", "packages": ["libp2p-gossipsub"], "features": "metrics,partial-messages"}]
 SELFTEST = [
     {"mutation": "fix reverted: default parameter checks removed from build (original F7)", "caught_by": "coverage/default: mesh_n_low <= mesh_n (and the other five default relations)"},
     {"mutation": "build: `default_mesh.mesh_n <= default_mesh.mesh_n_high` -> `default_mesh.mesh_n_low <= default_mesh.mesh_n_high`", "caught_by": "coverage/default: mesh_n <= mesh_n_high"},
